@@ -38,6 +38,7 @@ mod script_c05;
 mod script_c01;
 mod script_c06;
 mod script_c18;
+mod bfs;
 mod step;
 use step::{CandView, Expect, Step};
 
@@ -1277,6 +1278,20 @@ fn kb_s(b: EditorKeyBehavior) -> &'static str {
     }
 }
 
+// the three kinds of `ed` transcript record (one place: the generated sessions and the BFS of bfs.rs write the same text)
+#[allow(clippy::too_many_arguments)]
+fn rec_ok(opstr: &str, pre: &str, dict_pre: &str, lay_ans: &str, conv_ans: &str, post: &str, ret: &str, dict_post: &str) -> String {
+    format!("ed {} | {} | {} | {} {} => ok | {} | {} | {}", opstr, pre, dict_pre, lay_ans, conv_ans, post, ret, dict_post)
+}
+
+fn rec_panic(opstr: &str, pre: &str, dict_pre: &str, lay_ans: &str, conv_ans: &str) -> String {
+    format!("ed {} | {} | {} | {} {} => panic", opstr, pre, dict_pre, lay_ans, conv_ans)
+}
+
+fn rec_cands(post: &str, dict_post: &str, lay_ans_none: &str, c: &CandView) -> String {
+    format!("ed cands | {} | {} | {} C 0 => ok | {} | {} | {}", post, dict_post, lay_ans_none, post, step::cand_token(c), dict_post)
+}
+
 fn main() {
     let args: Vec<String> = std::env::args().collect();
     let thorough = tier_is_thorough();
@@ -1328,6 +1343,7 @@ fn main() {
     let seed = seed_from_env();
     if script_name.as_deref() == Some("c01") { script_c01::run(&mut out, seed, thorough); out.flush(); return; } // C01: choices over break / glue marks, own driver loop
     if script_name.as_deref() == Some("c06") { script_c06::run(&mut out, seed, thorough); out.flush(); return; } // C06: finite key sweep, own driver loop
+    if let Some(i) = args.iter().position(|a| a == "--bfs") { bfs::run(&mut out, seed, thorough, args.get(i + 1).map(|s| s.as_str()).unwrap_or("all"), &args); out.flush(); return; } // closed-world BFS (bfs.rs), own driver loop
     if args.iter().any(|a| a == "--c17-pairs") {
         // C17: paired executions only (with/without getters, reset vs fresh, alone vs beside another context)
         oracle_c17::run_pairs(&mut out, seed, thorough);
@@ -1656,16 +1672,10 @@ fn main() {
                     oracle_c07::check(&mut out, &step);
                     oracle_c18::check(&mut out, &step);
                     oracle_c01::check(&mut out, &step);
-                    out.rec(&format!(
-                        "ed {} | {} | {} | {} {} => ok | {} | {} | {}",
-                        opstr, pre, dict_pre, lay_ans, conv_ans, post, ret, dict_post
-                    ));
+                    out.rec(&rec_ok(&opstr, &pre, &dict_pre, &lay_ans, &conv_ans, &post, &ret, &dict_post));
                     // C07: the candidate getters themselves are a (pure) operation the model recomputes
                     if let Some(c) = &cand_post {
-                        out.rec(&format!(
-                            "ed cands | {} | {} | {} C 0 => ok | {} | {} | {}",
-                            post, dict_post, s.layout_answers(None), post, step::cand_token(c), dict_post
-                        ));
+                        out.rec(&rec_cands(&post, &dict_post, &s.layout_answers(None), c));
                     }
                     cand_pre = cand_post;
                     if let Some((_, how)) = getter_fail {
@@ -1696,10 +1706,7 @@ fn main() {
                     } else {
                         n_panic += 1;
                         oracle_c07::check_panic(&mut out, &step);
-                        out.rec(&format!(
-                            "ed {} | {} | {} | {} {} => panic",
-                            opstr, pre, dict_pre, lay_ans, conv_ans
-                        ));
+                        out.rec(&rec_panic(&opstr, &pre, &dict_pre, &lay_ans, &conv_ans));
                     }
                     // the editor may be left inconsistent: end the session
                     break;
